@@ -177,7 +177,8 @@ def mirror_ok(op, args, comp, cop, cargs):
 
 def check_wrapper(rep, b, companions):
     try:
-        paths = SymEx(b, havoc_loops=True, max_paths=6000).run()
+        from symex import unmentioned_private_helper
+        paths = SymEx(b, havoc_loops=True, max_paths=6000, inline=lambda cb, call: cb.defp in _STEPS or unmentioned_private_helper(cb, call)).run()
     except TooManyPaths:
         rep.indet('E6: path explosion in %s' % b.defp)
         return 0
@@ -238,16 +239,39 @@ def check_wrapper(rep, b, companions):
     return ntriples
 
 
+_STEPS = set()
+
+
+def wrapper_steps(facts, adt, wrappers_of_adt):
+    """a private method that only the wrappers (or such methods) call is a step of the wrapper: the mirroring obligation
+    (M2) is checked on the wrapper with that step executed in place"""
+    rcg = facts.rev_callgraph()
+    steps = set()
+    changed = True
+    while changed:
+        changed = False
+        for b in facts.bodies.values():
+            if b.kind == 'Closure' or b.defp in steps or not (b.impl and b.impl.get('self_adt') == adt) or b.d.get('vis', 'pub') == 'pub' or b.name in wrappers_of_adt:
+                continue
+            callers = [facts.bodies.get(c) for c in rcg.get(b.defp, ())]
+            if callers and all(c is not None and c.impl and c.impl.get('self_adt') == adt and (c.name in wrappers_of_adt or c.defp in steps) for c in callers):
+                steps.add(b.defp)
+                changed = True
+    _STEPS.update(steps)
+    return steps
+
+
 def check_who_may_write(facts, rep, adt, wrappers_of_adt):
     """M1"""
     mutators = {b.defp for b in facts.bodies.values() if b.impl and b.impl.get('self_adt') == 'yui_matrix::dense::mat::Mat'
                 and b.arg_count >= 1 and b.local_ty(1).startswith('&mut ') and b.kind != 'Closure'}
     n = 0
+    steps = wrapper_steps(facts, adt, wrappers_of_adt)
     for b in facts.bodies.values():
         root = facts.bodies.get(b.d.get('root') or '') or b
         if not (root.impl and root.impl.get('self_adt') == adt):
             continue
-        is_wrapper = root.name in wrappers_of_adt
+        is_wrapper = root.name in wrappers_of_adt or root.defp in steps
         for c in b.calls():
             tgt = c.name or ''
             mut_call = tgt in mutators or (c.generic or '').endswith('IndexMut::index_mut')
@@ -424,6 +448,7 @@ def unimodular(blk):
 def run_snf(facts, rep):
     adt = 'yui_matrix::dense::snf::SnfCalc'
     n = 0
+    wrapper_steps(facts, adt, WRAPPERS[adt] + ['preprocess_lll'])
     for nm in WRAPPERS[adt]:
         bs = [b for b in facts.bodies.values() if b.impl and b.impl.get('self_adt') == adt and b.name == nm and b.kind != 'Closure']
         if len(bs) != 1:
@@ -440,6 +465,7 @@ def run_snf(facts, rep):
 def run_lll(facts, rep):
     n = 0
     for adt in ('yui_matrix::dense::lll::LLLData', 'yui_matrix::dense::lll::LLLHNFCalc'):
+        wrapper_steps(facts, adt, WRAPPERS[adt])
         for nm in WRAPPERS[adt]:
             bs = [b for b in facts.bodies.values() if b.impl and b.impl.get('self_adt') == adt and b.name == nm and b.kind != 'Closure']
             if len(bs) != 1:
